@@ -11,19 +11,19 @@ import re
 import vf
 
 META = {
-    "text": "32 theorems (Coq, no axioms), all FULL under stated hypotheses, none refuted.  WAL (chaindbForRaft.go, waldb.go): after any "
-            "history of well-formed batches (what etcd/raft hands over) the entry at every index up to the last is the reference log "
-            "firstn(i0-1)++batch, absent beyond (shorter/equal/longer overwrite, ClearWAL, ResetWAL); ReadAll returns exactly that log with "
-            "its blocks; replayWAL hands it and the hard state to the library's storage; reads are functions of the store only; hard state "
-            "/ snapshot / identity round trips; HasWal; inverse map = most recent write; every prefix of SaveEntry's write units leaves a "
-            "consistent store (crash points; the opposite order is shown unsafe); ClearWAL/ResetWAL intermediates have no identity.  "
+    "text": "34 theorems (Coq, no axioms), all FULL under stated hypotheses, none refuted.  WAL (chaindbForRaft.go, waldb.go): after any "
+            "history of well-formed batches (raft's) the entry at every index up to the last is the reference log "
+            "firstn(i0-1)++batch, absent beyond (any overwrite, ClearWAL, ResetWAL); ReadAll returns it with "
+            "its blocks; replayWAL hands it and the hard state to the library's storage; hard state "
+            "/ snapshot / identity round trips; HasWal; inverse map = latest write; every prefix of SaveEntry's write units leaves a "
+            "consistent store (the opposite order is shown unsafe); ClearWAL/ResetWAL intermediates have no identity.  "
             "raftserver.go: entriesToApply, triggerSnapshot index arithmetic.  Membership (cluster.go): duplicate name/id/address/peer id "
-            "refused, removed id never re-added (also after Recover from a snapshot), unknown id not removed, removal of a healthy node keeps "
-            "quorum, one proposal in flight.  Tie: in-package engine of raftv2 (overlay) runs the real functions on an in-memory journaling "
-            "store: everything read back before/after a restart and after every proper prefix of each operation's DB write units; complete "
-            "isEnable / entriesToApply families, validate cases, request sequences with restarts; model evaluated by vm_compute on the same "
-            "inputs; direct predicates: restart-same, reference log, round trips, ReadAll, replay, crash-consistent, HasWal, quorum, "
-            "add/remove accepted, removed-forgotten, two-proposals, snapshot-index.",
+            "refused, removed id never re-added, also through any snapshot round trips (the snapshot lists the whole id-indexed maps), unknown id not removed, removal of a healthy node keeps quorum, one proposal in flight.  Tie: in-package engine of raftv2 (overlay) runs the real functions on a journaling in-memory "
+            "store: all read back before/after restart and after every proper prefix of each operation's write units; complete "
+            "isEnable / entriesToApply families, validate cases, request sequences with attribute re-use after removal and createSnapshotData->"
+            "Recover into initial/empty/lagging clusters; model evaluated by vm_compute on the same "
+            "inputs; direct predicates: restart-same, reference log, ReadAll, replay, crash-consistent, HasWal, quorum, "
+            "add/remove accepted, removed-forgotten, snapshot-members, removed-readded, two-proposals, snapshot-index.",
     "note": "Trusted: Coq kernel + vm_compute; no axioms, no translator; engine harness/engines/raftwal (+ constructor shim in chain), "
             "generators in this script.  Modelled, not verified: gob/protobuf/JSON encodings opaque; dbkey families disjoint; a DB "
             "transaction / bulk is atomic (C06); raft Status faked; MemoryStorage is the library's.  Hypotheses: batches consecutive, above "
@@ -328,37 +328,93 @@ def gen_en_cases(rng, quick):
 
 def gen_seq_cases(rng, quick):
     """request sequences against the real addMember/removeMember: fresh adds, adds duplicating one attribute of an
-    applied member, re-adds of removed ids, removes of applied / unknown / removed ids, invalid members"""
+    applied member, re-adds of removed ids, removes of applied / unknown / removed ids, invalid members; adds with a
+    FRESH id that use the name, address or peer id (each, or all) of a member removed earlier, later removed as well;
+    marks (the lagging follower's state) and snapshot round trips (createSnapshotData -> encode -> decode -> Recover)
+    into the initial configuration, an empty cluster or the lagging follower"""
     cases = []
-    for _ in range(150 if quick else 2500):
+    for ci in range(150 if quick else 2500):
         k = rng.randrange(0, 4)
-        applied = {i: member(i) for i in range(1, k + 1)}
-        removed = set()
+        applied = {i: member(i) for i in range(1, k + 1)}       # generator's approximation of the cluster (accepted requests assumed)
+        removed = {}
         reqs = []
+        fresh = [20]
+
+        def reuse_episode():
+            # remove v; add a fresh id using v's name / address / peer id / all; remove it too; [mark]; round trip; re-adds
+            if applied and rng.random() < 0.7:
+                v = rng.choice(list(applied))
+            else:
+                v = rng.randrange(1, 7)
+                reqs.append([0] + member(v))
+                applied[v] = member(v)
+            vm = applied.pop(v)
+            reqs.append([1, v, 0, 0, 0] if rng.random() < 0.5 else [1] + vm)
+            removed[v] = vm
+            for _ in range(rng.choice([1, 1, 2])):
+                f = fresh[0]
+                fresh[0] += 1
+                m = [f, f, f, f]
+                which = rng.choice([(1,), (2,), (3,), (1, 2, 3), (1, 3)])
+                for w in which:
+                    m[w] = vm[w]
+                reqs.append([0] + m)
+                if rng.random() < 0.25:
+                    reqs.append([8, 0, 0, 0, 0])
+                if rng.random() < 0.85:
+                    reqs.append([1, f, 0, 0, 0])
+                    removed[f] = m
+                else:
+                    applied[f] = m
+            if rng.random() < 0.3:
+                reqs.append([8, 0, 0, 0, 0])
+            reqs.append([9, rng.choice([0, 1, 1, 2]), 0, 0, 0])
+            for i in rng.sample(list(removed), min(len(removed), 2)):
+                reqs.append([0] + removed[i])                   # re-add of a removed id: must be refused
+
         for _ in range(rng.randrange(6, 14)):
             r = rng.random()
             pool = [i for i in range(1, 7)]
-            if r < 0.3:
+            if r < 0.25:
                 j = rng.choice(pool)
                 reqs.append([0] + member(j))
-            elif r < 0.45 and applied:
+                if j not in removed:
+                    applied.setdefault(j, member(j))
+            elif r < 0.37 and applied:
                 j = rng.choice([i for i in pool if i not in applied] or pool)
                 m = member(j)
-                m[rng.randrange(1, 4)] = rng.choice(list(applied))      # duplicate name, address or peer id
+                m[rng.randrange(1, 4)] = rng.choice(list(applied.values()))[rng.randrange(1, 4)]   # duplicate name, address or peer id
                 reqs.append([0] + m)
-            elif r < 0.55:
+            elif r < 0.45:
                 j = rng.choice(pool)
                 m = member(j)
                 m[rng.randrange(1, 4)] = 0                              # empty attribute: invalid member
                 reqs.append([0] + m)
-            elif r < 0.9:
-                reqs.append([1] + member(rng.choice(pool)))
-            elif r < 0.95:
+            elif r < 0.70:
+                j = rng.choice(pool + list(applied))
+                reqs.append([1] + member(j) if j < 20 else [1, j, 0, 0, 0])
+                if j in applied:
+                    removed[j] = applied.pop(j)
+            elif r < 0.74:
                 reqs.append([rng.choice([2, 3])] + member(rng.choice(pool)))
-            else:
-                reqs.append([9, 0, 0, 0, 0])      # restart: snapshot data -> Cluster.Recover into the initial configuration
+            elif r < 0.80:
+                reqs.append([8, 0, 0, 0, 0])      # mark: the lagging follower stops here
+            elif r < 0.88:
+                reqs.append([9, rng.choice([0, 1, 2]), 0, 0, 0])      # snapshot round trip
+            elif ci % 2 == 0:
+                reuse_episode()
         cases.append({"kind": "seq", "applied": [member(i) for i in range(1, k + 1)], "reqs": reqs})
     return cases
+
+
+def _reuse(c, r, st):
+    """two removed members of this snapshot had the same name, address or peer id"""
+    attrs = {m[0]: m for m in c["applied"]}
+    for rq, s2 in zip(c["reqs"], r["steps"]):
+        if rq[0] == 0 and s2["code"] == 0:
+            attrs[rq[1]] = rq[1:]
+    ms = [attrs[i] for i in st["snapr"] if i in attrs]
+    return any(len({m[f] for m in ms}) != len(ms) for f in (1, 2, 3))
 
 
 def gen_srv_cases(rng, quick):
@@ -418,10 +474,14 @@ def run(ctx):
     # ---- cases
     gens = []
     corpus = []
+    seq_corpus = []
     cdir = os.path.join(ctx.verif, "corpus", "C16")
     for f in sorted(os.listdir(cdir)) if os.path.isdir(cdir) else []:
         if f.endswith(".json"):
             c = json.load(open(os.path.join(cdir, f)))
+            if c.get("kind") == "seq":
+                seq_corpus += [{"kind": "seq", "applied": x["applied"], "reqs": x["reqs"]} for x in c["cases"]]
+                continue
             g = WalGen(rng, True)
             for op in c["ops"]:
                 g.ops.append(op)
@@ -460,7 +520,7 @@ def run(ctx):
     wal_cases = [{"kind": "wal", "maxi": MAXI, "blocks": BLOCKS, "ccids": CCIDS, "ops": g.ops, "qs": g.qs} for g in corpus + gens]
     val_cases = gen_val_cases(rng, quick)
     en_cases = gen_en_cases(rng, quick)
-    seq_cases = gen_seq_cases(rng, quick)
+    seq_cases = seq_corpus + gen_seq_cases(rng, quick)
     eta_cases, ts_cases, prop_cases = gen_srv_cases(rng, quick)
     srv_cases = eta_cases + ts_cases + prop_cases
     allc = wal_cases + val_cases + en_cases + seq_cases + srv_cases
@@ -639,8 +699,20 @@ def run(ctx):
             if ap & rm:
                 pred_fail.append(("C16:removed-is-member", "a removed member id is an applied member again", {"case": c, "step": si, "obs": st}))
                 break
+            if rq[0] == 9:
+                prev = r["steps"][si - 1] if si else {"applied": [m[0] for m in c["applied"]], "removed": []}
+                if (sorted(st.get("snapm") or []) != sorted(prev["applied"]) or sorted(st.get("snapr") or []) != sorted(prev["removed"])
+                        or len(st.get("snapm") or []) != st["lenm"] or len(st.get("snapr") or []) != st["lenr"]):
+                    pred_fail.append(("C16:snapshot-members-incomplete", "the snapshot data does not list exactly the members / removed members "
+                                      "of the id-indexed maps", {"case": c, "step": si, "obs": st, "before": prev}))
+                if any(x != 3 for x in st.get("probe") or []) or not all(st.get("isrem") or []):
+                    pred_fail.append(("C16:removed-readded-after-snapshot", "after a snapshot round trip an id removed earlier is no longer known as "
+                                      "removed / an AddNode change for it is not refused with ErrCCAlreadyRemoved",
+                                      {"case": c, "step": si, "obs": st}))
             if not removed_seen <= rm:
-                pred_fail.append(("C16:removed-forgotten", "a removed member id disappeared from the removed set", {"case": c, "step": si, "obs": st}))
+                pred_fail.append(("C16:removed-forgotten", "a removed member id disappeared from the removed set" +
+                                  (" after a snapshot round trip (createSnapshotData -> Recover)" if rq[0] == 9 else ""),
+                                  {"case": c, "step": si, "obs": st}))
                 break
             removed_seen = rm
             ms = [attrs[i] for i in ap if i in attrs]
@@ -775,7 +847,10 @@ def run(ctx):
         steps = []
         for rq, st in zip(c["reqs"], r["steps"]):
             if rq[0] == 9:
-                steps.append("(SRestart, %d, [%s], [%s])" % (st["code"], ";".join(map(str, st["applied"])), ";".join(map(str, st["removed"]))))
+                steps.append("(SRestart %d, %d, [%s], [%s])" % (rq[1], st["code"], ";".join(map(str, st["applied"])), ";".join(map(str, st["removed"]))))
+                continue
+            if rq[0] == 8:
+                steps.append("(SMark, 0, [%s], [%s])" % (";".join(map(str, st["applied"])), ";".join(map(str, st["removed"]))))
                 continue
             con = "RAdd" if rq[0] == 0 else "RRemove"
             if rq[0] > 1:
@@ -905,6 +980,12 @@ def run(ctx):
                                      "entries_to_apply_cases": len(eta_cases), "trigger_snapshot_cases": len(ts_cases), "proposal_slot_sequences": len(prop_cases),
                                      "replay_runs": sum(1 for g, r in zip(corpus + gens, wres) for st in r["steps"] if not st.get("p") and isinstance(decode_obs(st["post"])["replay"], dict)),
                                      "request_sequences": len(seq_cases), "request_sequence_steps": seq_steps,
+                                     "snapshot_round_trips": sum(1 for c in seq_cases for rq in c["reqs"] if rq[0] == 9),
+                                     "round_trips_with_removed_members": sum(1 for r in sres for st in r["steps"] if st.get("snapr")),
+                                     "round_trips_after_attribute_reuse_by_removed_members": sum(
+                                         1 for c, r in zip(seq_cases, sres) for rq, st in zip(c["reqs"], r["steps"])
+                                         if rq[0] == 9 and st.get("snapr") and _reuse(c, r, st)),
+                                     "removed_id_probes_after_round_trip": sum(len(st.get("probe") or []) for r in sres for st in r["steps"]),
                                      "request_sequence_accepted": sum(1 for r in sres for st in r["steps"] if st["code"] == 0),
                                      "enable_cases": len(en_cases), "enable_result_codes": ecodes,
                                      "enable_family": "all progress vectors over {healthy, probe, slow by gap, syncing} for 1..5 nodes (complete) x "
